@@ -124,9 +124,10 @@ class ManifestContext:
                 stream=stream.directory,
                 manifest=self.manifest.name,
                 publish=int(timing.publishTime.timestamp()))
-            ttl = max(
-                timing.timeShiftBufferDepth,
-                int(math.ceil(timing.minimumUpdatePeriod)))
+            ttl = timing.timeShiftBufferDepth
+            if timing.minimumUpdatePeriod is not None:
+                # (there is no update period when mup is zero or negative)
+                ttl = max(ttl, int(math.ceil(timing.minimumUpdatePeriod)))
             if self.cgi_params.patch:
                 patch_loc += objects.dict_to_cgi_params(self.cgi_params.patch)
             self.patch = PatchLocation(location=patch_loc, ttl=ttl)
